@@ -16,7 +16,7 @@ NAME = "fsw"
 
 
 def generate(seed, tier="quick", **kw):
-    plan = fam_fs.generate(seed, tier, faults=False)
+    plan = fam_fs.generate(seed, tier, faults=False, light=True)
     plan["family"] = NAME
     plan["max_faults"] = 260
     return plan
